@@ -532,6 +532,22 @@ class Builder:
             if ss:
                 v = self.pick(ss)
                 return [ExprStmt(Call('write', [Is(Var(v.name, t=STRING), arr(BYTE, True), t=arr(BYTE, True))], t=EMPTY))]
+        if e is None and 'strings' in self.F and self.chance(6):
+            # a character of a string reached through a variable / parameter / string-array element, guarded by its length
+            ss = self.vars_of(lambda v: v.ty == STRING)
+            sa = self.vars_of(lambda v: is_arr(v.ty) and v.ty[1] == STRING and v.static_len) if 'arrays' in self.F else []
+            src = None
+            if sa and (not ss or self.chance(40)):
+                a = self.pick(sa)
+                src = Index(Var(a.name, t=a.ty), Lit('int', self.integer(0, a.static_len - 1), None, t=INT), t=STRING)
+            elif ss:
+                src = Var(self.pick(ss).name, t=STRING)
+            if src is not None:
+                k = self.integer(0, 3)
+                import copy as _copy
+                ch = Index(_copy.deepcopy(src), Lit('int', k, None, t=INT), t=BYTE)
+                return [If(Bin('>', Len(src, t=INT), Lit('int', k, None, t=INT), t=BOOL),
+                           Block([ExprStmt(Call('write', [Is(ch, INT, t=INT)], t=EMPTY)), ExprStmt(Call('write', [Lit('char', 32, None, t=BYTE)], t=EMPTY))]), None)]
         if e is None:
             tys = [INT]
             if 'bools' in self.F:
@@ -647,6 +663,8 @@ class Builder:
             n = None
         else:
             n = self.integer(0, self.size['arr_len'])
+            if el == BOOL and self.chance(35):
+                n = self.pick([7, 8, 9, 15, 16, 17, 20])       # bit-packed: lengths around the byte boundaries
             length = Lit('int', n, None, t=INT)
             if self.size.get('argv_vla') and el != STRING and self.chance(55) and not any(v.name == 'gvl' for sc in self.scopes for v in sc):
                 # run-time length taken from the command line (through a global): the length sweep of C04 drives it
@@ -1056,8 +1074,18 @@ class Builder:
         self.loop_depth -= 1
         self.scopes.pop()
         step = self.pick([1, 1, 2])
-        return [For(Decl(INT, False, i, Lit('int', 0, None, t=INT)), Bin('<', iv, bound, t=BOOL),
-                    AugAssign(iv, '+', Lit('int', step, None, t=INT)), body)]
+        init = Decl(INT, False, i, Lit('int', 0, None, t=INT))
+        stepst = AugAssign(iv, '+', Lit('int', step, None, t=INT))
+        if not search and self.chance(12):
+            # empty init clause: the counter is an ordinary local declared before the loop
+            self.declare(VarInfo(i, INT, frozen=True))
+            return [init, For(None, Bin('<', iv, bound, t=BOOL), stepst, body)]
+        if not search and self.chance(8):
+            # plain assignment (not a declaration) in the init clause
+            self.declare(VarInfo(i, INT, frozen=True))
+            return [Decl(INT, False, i, Lit('int', 7, None, t=INT)),
+                    For(Assign(iv, Lit('int', 0, None, t=INT)), Bin('<', iv, bound, t=BOOL), stepst, body)]
+        return [For(init, Bin('<', iv, bound, t=BOOL), stepst, body)]
 
     def retry_loop(self):
         """`while (true) { w -= 1; if (w > 0) { ..; continue; } ..; return v; }` / the `for (;;)` twin: a trivially infinite
@@ -1196,13 +1224,23 @@ class Builder:
     # -- functions ---------------------------------------------------------
     def gen_params(self, n, allow_arrays=True):
         params = []
+        if n >= 2 and self.chance(self.size.get('many_params_pct', 6)):
+            n = self.integer(6, 9)          # long parameter lists: frame offsets of the later ones, argument evaluation order
+        used = set()
         for _ in range(n):
+            pname = self.fresh('p')
+            if 'shadow' in self.F and self.globals and self.chance(8):
+                # a parameter may shadow a global
+                cands = [g.name for g in self.globals if g.name not in used and g.name not in ('gvl',)]
+                if cands:
+                    pname = self.pick(cands)
+            used.add(pname)
             if allow_arrays and 'arrays' in self.F and self.chance(30):
                 el = self.weighted(self.array_el_types())
-                params.append(Param(arr(el, self.chance(50)), True, self.fresh('p')))
+                params.append(Param(arr(el, self.chance(50)), True, pname))
             else:
                 ty = self.weighted(self.scalar_types())
-                params.append(Param(ty, self.chance(10), self.fresh('p')))
+                params.append(Param(ty, self.chance(10), pname))
         return params
 
     def gen_func(self, flavor, name=None, ret=None, params=None, recursive=False, tag=None):
